@@ -772,6 +772,7 @@ func runC01(r *Run) {
 	})
 	runC01Monitor(r)
 	runC01Operator(r)
+	runC01OperatorWindow(r)
 	runC01Operator2(r)
 	// the recorded finding class, explored separately (expected to fail the oracle)
 	r.Cases(900000, r.N(20, 200), 0, func(c *Case, rng *Rng) {
